@@ -116,6 +116,10 @@ class CloneGen:
                 fr["precur"].append({"k": "go", "far": far, "needs": [n], "transit": []})
         if r.random() < 0.7:
             r.choice(frames)[r.choice(("enter", "recur"))].append({"k": "done", "who": "me"})
+        # entry guards (let me if [not] ...) on the later frames of the template: copied with the clone
+        for fr in frames[1:]:
+            if r.random() < 0.5:
+                fr["benter"] = [need("cmp", r.random() < 0.6, share=r.choice(("in.a", "in.b")), op=r.choice(("==", "!=", ">=")), goal=r.randint(0, 1))]
         clones = {}
         if nested and r.random() < 0.8:
             host = r.choice(frames)
